@@ -61,7 +61,7 @@ def elem_size(t, guest):
     return tab[t]
 
 
-PRE_GHOST = '_Bool g_noabort; _Bool g_backend_nonnull;'
+PRE_GHOST = '_Bool g_noabort; _Bool g_backend_nonnull; unsigned long g_expect_example; unsigned long g_expect_malloc_size;'
 
 
 def idx_value(kind, idx, arg):
